@@ -29,7 +29,7 @@ var c03TrueExprs = []string{"t", "!f", "n == 1", "s == 'x'", "t && t"}
 var c03FalseExprs = []string{"f", "!t", "n == 2", "zz", "n > 5", "f || zz"}
 
 func c03Data() map[string]any {
-	return map[string]any{"t": true, "f": false, "n": 1, "s": "x", "two": []int{0, 1}}
+	return map[string]any{"t": true, "f": false, "n": 1, "s": "x", "two": []int{0, 1}, "none": []int{}, "one": []int{7}}
 }
 
 // c03Build returns the template and the expected id list ("" second result = unconstrained).
@@ -38,7 +38,7 @@ func c03Build(members []string, sep, placement string) (tpl string, want []strin
 	var parts []string
 	defined = true
 	// reference chain evaluation
-	inChain, taken, sawElse := false, false, false
+	inChain, taken, sawElse, afterFor := false, false, false, false
 	for i, m := range members {
 		id := fmt.Sprintf("m%d", i)
 		kind, truth := strings.TrimRight(m, "+-"), strings.HasSuffix(m, "+")
@@ -49,17 +49,25 @@ func c03Build(members []string, sep, placement string) (tpl string, want []strin
 		attr := ""
 		switch kind {
 		case "P":
-			inChain = false
+			inChain, afterFor = false, false
 			want = append(want, id)
+		case "F":
+			// v-for over an empty / a one-element list; a directly following v-else is its fallback
+			inChain, taken, sawElse, afterFor = true, truth, false, true
+			attr = ` v-for="q in none"`
+			if truth {
+				attr = ` v-for="q in one"`
+				want = append(want, id)
+			}
 		case "I":
-			inChain, taken, sawElse = true, truth, false
+			inChain, taken, sawElse, afterFor = true, truth, false, false
 			attr = fmt.Sprintf(` v-if="%s"`, expr)
 			if truth {
 				want = append(want, id)
 			}
 		case "EI":
-			if !inChain || sawElse {
-				defined = false // orphan or after v-else: unconstrained
+			if !inChain || sawElse || afterFor {
+				defined = false // orphan, after v-else or after v-for: unconstrained
 			}
 			attr = fmt.Sprintf(` v-else-if="%s"`, expr)
 			if inChain && !taken && truth {
@@ -272,7 +280,7 @@ func init() {
 	core.Register(&core.Check{
 		ID:    "C03",
 		Level: "exploration",
-		Rule: "chain part: every sibling list up to the bound over {plain, v-if(T/F), v-else-if(T/F), v-else} x separators {none, whitespace, comment, both} x placements {top, div, v-for x2, <template> members, nested in a taken branch, deep}; oracle: reference chain evaluator gives the ordered marker list. " +
+		Rule: "chain part: every sibling list up to the bound over {plain, v-if(T/F), v-else-if(T/F), v-else, v-for over an empty / one-element list} x separators {none, whitespace, comment, both} x placements {top, div, v-for x2, <template> members, nested in a taken branch, deep}; oracle: reference chain evaluator gives the ordered marker list. " +
 			"truth part: 46 Go values x 3 ways of reaching them x 6 consumers (v-if, v-else-if, !x, v-show, :attr, :class object); oracles: documented table and agreement between consumers. non-trivial = chain of >=2 members with defined semantics, or any truth case",
 		Bounds:      map[string]string{"quick": "sibling lists of length <= 5", "thorough": "sibling lists of length <= 6"},
 		Assumptions: []string{"what an orphan v-else/v-else-if renders, and members after a v-else, are unconstrained (only plain siblings are checked there)", "typed nil pointers, NaN and the string \"false\" are checked for uniformity only"},
@@ -286,7 +294,7 @@ func init() {
 					emit(&c03Case{Part: "truth", Val: tv.Name, Reach: r})
 				}
 			}
-			opts := []string{"P", "I+", "I-", "EI+", "EI-", "E"}
+			opts := []string{"P", "I+", "I-", "EI+", "EI-", "E", "F-", "F+"}
 			max := 5
 			if tier == "thorough" {
 				max = 6
